@@ -49,8 +49,9 @@ type Seam struct {
 	Log      []ReadRec
 	Stream   uint64 // stream id: different ids give unrelated pattern-A streams
 	StreamOf func() uint64
-	Default  int    // the answer served when no explorer is attached (AnsA unless set)
-	Before   func() // called at the start of every Read (scheduling point of the cooperative scheduler)
+	Default  int        // the answer served when no explorer is attached (AnsA unless set)
+	Before   func()     // called at the start of every Read (scheduling point of the cooperative scheduler)
+	ConstOf  func() int // >= 0: this read is served with that constant octet (a source that is stuck for one caller)
 	pos      map[uint64]uint64
 }
 
@@ -93,6 +94,11 @@ func (s *Seam) Read(p []byte) (int, error) {
 	st := s.Stream
 	if s.StreamOf != nil {
 		st = s.StreamOf()
+	}
+	if s.ConstOf != nil {
+		if v := s.ConstOf(); v >= 0 {
+			ans = AnsConst + v&0xff
+		}
 	}
 	rec := ReadRec{Call: call, Requested: len(p), Answer: ans}
 	var n int
